@@ -66,6 +66,7 @@ class FilledGrid(grid.Grid[NumX, NumY]):
 
         if isinstance(grid_obj, FilledGrid):
             vacancies = grid_obj.vacancies
+            grid_obj = grid_obj.parent
         else:
             vacancies = frozenset(product(range(num_x), range(num_y)))
 
@@ -80,6 +81,7 @@ class FilledGrid(grid.Grid[NumX, NumY]):
 
         if isinstance(grid_obj, FilledGrid):
             input_vacancies = grid_obj.vacancies
+            grid_obj = grid_obj.parent
         else:
             input_vacancies = frozenset()
 
@@ -90,14 +92,14 @@ class FilledGrid(grid.Grid[NumX, NumY]):
     def get_view(  # type: ignore
         self, x_indices: ilist.IList[int, Any], y_indices: ilist.IList[int, Any]
     ):
-        remapping_x = {ix: i for i, ix in enumerate(x_indices)}
-        remapping_y = {iy: i for i, iy in enumerate(y_indices)}
         return FilledGrid(
             parent=self.parent.get_view(x_indices, y_indices),
             vacancies=frozenset(
-                (remapping_x[x], remapping_y[y])
-                for x, y in self.vacancies
-                if x in remapping_x and y in remapping_y
+                (i, j)
+                for (i, x), (j, y) in product(
+                    enumerate(x_indices), enumerate(y_indices)
+                )
+                if (x, y) in self.vacancies
             ),
         )
 
